@@ -1,0 +1,34 @@
+//go:build verif
+
+package server
+
+// Instrumentation for the model-based conformance checks in /verif (build tag `verif`).
+// With the tag off, verif_off.go provides empty functions and nothing else is compiled in.
+
+// VerifTrace, when set, receives one event per instrumented linearization point. srv is the *server the
+// event belongs to (comparable with the Server interface value), kv are alternating keys and scalar values.
+// It is called while the lock protecting the traced state is still held.
+var VerifTrace func(srv interface{}, ev string, kv ...interface{})
+
+// VerifGate, when set, is called at scheduling points outside any lock; it may block to force an interleaving.
+var VerifGate func(srv interface{}, point string, kv ...interface{})
+
+func verifTrace(srv *server, ev string, kv ...interface{}) {
+	if f := VerifTrace; f != nil {
+		f(srv, ev, kv...)
+	}
+}
+
+func verifGate(srv *server, point string, kv ...interface{}) {
+	if f := VerifGate; f != nil {
+		f(srv, point, kv...)
+	}
+}
+
+// verifConn identifies a connection by the peer address (the harness knows its local address).
+func verifConn(c *client) string {
+	if c == nil || c.rwc == nil || c.rwc.RemoteAddr() == nil {
+		return ""
+	}
+	return c.rwc.RemoteAddr().String()
+}
